@@ -92,7 +92,8 @@ class C06(Prop):
 
     def project(self, case, out):
         if case.get('op') == 'build':
-            return out
+            from harness.common import code_projection
+            return code_projection(out)
         return out if not (isinstance(out, dict) and 'ok' in out and 'files' in (out['ok'] if isinstance(out['ok'], dict) else {})) else 'files'
 
     def shape(self, case, impl_out):
